@@ -40,6 +40,10 @@ ASSUME = [
     "report call stays suspended (it can do nothing else) until a slot is free. An answer that is refused or dropped there "
     "leaves the request unanswered (judged at quiescence); a lost INBOUND substream is only recorded (inbound:err / "
     "deliver:err in full_inbox_deliveries), the statement does not demand its delivery",
+    "usability probe: at the end of every execution, when exactly one fresh connection to a peer is up, every inbox is "
+    "empty and nothing has been downgraded since, open_substream(peer) must be accepted by every live protocol (statement: "
+    "'while a peer is connected a request to open a substream is accepted'); elsewhere a refusal is never judged (a "
+    "downgraded or clogged connection may legitimately refuse)",
     "a dropped protocol: its TransportService is dropped (inbox, handles, tracker gone) while the ProtocolSet of every "
     "later scripted connection still holds its sender, as the snapshot real transports hold does; its own requests are void "
     "from then on. The order in which report_connection_established polls its sends follows the protocol map's "
@@ -244,6 +248,15 @@ FIXED = [
                                     S("close", c=1, clog=-1), S("drop", c=1), S("poll", q=0),
                                     S("est", p="p2", c=3, full=0), S("poll", q=0), S("deliver", c=3), S("poll", q=0),
                                     S("open", q=0, p="p2"), S("est", p="p3", c=4, full=-1), S("poll", q=0)]},
+    # keep-alive downgrades one of two overlapping connections in a protocol, then both close (either order):
+    # closed is reported once, and the peer is usable again afterwards (the epilogue re-establishes and opens)
+    {"ka": [True, False], "stims": [S("est", p="p1", c=1), S("est", p="p1", c=2), S("poll", q=0), S("poll", q=0), S("poll", q=1), S("poll", q=1),
+                                    S("expire", q=0, p="p1", c=2), S("expire", q=1, p="p1", c=2), S("close", c=2, clog=-1), S("drop", c=2),
+                                    S("poll", q=0), S("poll", q=1), S("close", c=1, clog=-1), S("drop", c=1), S("poll", q=0), S("poll", q=1)]},
+    {"ka": [True, True], "stims": [S("est", p="p1", c=1), S("est", p="p1", c=2), S("poll", q=0), S("poll", q=0), S("poll", q=1), S("poll", q=1),
+                                   S("expire", q=0, p="p1", c=1), S("expire", q=1, p="p1", c=2), S("close", c=1, clog=-1), S("drop", c=1),
+                                   S("poll", q=0), S("poll", q=1), S("expire", q=0, p="p1", c=2), S("close", c=2, clog=-1), S("drop", c=2),
+                                   S("poll", q=0), S("poll", q=1)]},
     {"ka": [True, True], "stims": [S("est", p="p1", c=1, full=-1), S("dropproto", q=0), S("poll", q=1),
                                    S("est", p="p2", c=2, full=-1), S("poll", q=1), S("est", p="p3", c=3, full=1), S("poll", q=1),
                                    S("deliver", c=3), S("poll", q=1), S("est", p="p1", c=4, full=-1), S("poll", q=1),
